@@ -46,6 +46,7 @@ class Closure:
     self_obj: Any = None
     cls: Any = None             # ClassInfo where the function is defined (for super())
     qual: str = ""
+    outer: Any = ()             # the environments enclosing the defining frame (a function defined inside a nested function)
 
 
 @dataclass
